@@ -249,6 +249,10 @@ def load_module(prop_id: str):
 
 def run_shard(prop_id: str, tier: str, seed: int, shard: int, nshards: int, out_path: str) -> int:
     faulthandler.enable()
+    import logging
+
+    # the repository logs every injected fault at WARNING/ERROR; the monitors observe behaviour, not log text
+    logging.disable(logging.CRITICAL)
     mod = load_module(prop_id)
     ctx = Ctx(prop_id, tier, seed, shard, nshards)
     t0 = time.time()
